@@ -489,7 +489,7 @@ func runCacheInBubble(sc *SrvScenario, known map[string]bool) (st cacheStats, er
 				}
 			}
 			for j, u := range units {
-				ts := int64(i+1)*1000 + int64(j)
+				ts := int64(i+1)*1000000 + int64(j) // strictly increasing over the scenario (a notification may have more than 1000 entries)
 				gerr := c.GnmiUpdate(u.proto(ts, op.NPrefix.proto()))
 				synctest.Wait()
 				entries := u.entryPaths(prefix)
